@@ -286,6 +286,7 @@ class Path:
         self.lazy = {}
         self.prog_temps = None
         self.prog_vals = None  # truth values of the clauses evaluated so far (parallel to prog_temps, concrete ones included)
+        self.active_counters = {}  # frame oid -> names of the ghost counters of the for loops being executed
         self.die_after = None  # number of obligations still to be stated before this path ends (see Config.clauses)
         self.def_ids = set()
         self.nproves = 0
@@ -1052,7 +1053,7 @@ class Path:
             return
         fr = self.scope[0]
         if isinstance(it, SymRange):
-            itname = '_it'
+            itname = self.loop_counter_name('_it')
             self.store_name(itname, it.start)
             step = it.step
 
@@ -1065,11 +1066,11 @@ class Path:
             def stepf():
                 self.store_name(itname, self.binop(ast.Add(), self.lookup(itname), step))
 
-            self.cut_loop(s, spec, test, pre_body, (itname,), stepf)
+            self.cut_loop_named(itname, s, spec, test, pre_body, (itname,), stepf)
             return
         seq = self.as_symseq(it)
         if seq is not None:
-            itname = '_i'
+            itname = self.loop_counter_name('_i')
             self.store_name(itname, 0)
             ln = self.length(seq)
 
@@ -1082,11 +1083,11 @@ class Path:
             def stepf():
                 self.store_name(itname, self.binop(ast.Add(), self.lookup(itname), 1))
 
-            self.cut_loop(s, spec, test, pre_body, (itname,), stepf)
+            self.cut_loop_named(itname, s, spec, test, pre_body, (itname,), stepf)
             return
         if isinstance(it, SymZip):
             # zip of symbolic sequences: position _i runs over 0 .. min(len) - 1, the target is the tuple of the _i-th elements
-            itname = '_i'
+            itname = self.loop_counter_name('_i')
             self.store_name(itname, 0)
             lens = [self.length(q) for q in it.seqs]
 
@@ -1099,7 +1100,7 @@ class Path:
             def stepf():
                 self.store_name(itname, self.binop(ast.Add(), self.lookup(itname), 1))
 
-            self.cut_loop(s, spec, test, pre_body, (itname,), stepf)
+            self.cut_loop_named(itname, s, spec, test, pre_body, (itname,), stepf)
             return
         if self.skeleton and isinstance(it, Unknown):
             # skeleton profile: an uninterpreted iterable yields an arbitrary number of uninterpreted items
@@ -1111,6 +1112,25 @@ class Path:
             self.cut_loop(s, spec, lambda: Unknown('more items'), pre_body_u, ())
             return
         raise Unsupported(f'for over {it!r}')
+
+    def loop_counter_name(self, base):
+        """ghost counter of a for loop over a symbolic range / sequence: `_it` / `_i`; a loop nested inside another
+        such loop of the same activation gets `_it1`, `_i1`, `_i2`, ... (one shared name would let the inner loop
+        clobber the position of the outer one)"""
+        active = self.active_counters.setdefault(self.scope[0].oid, [])
+        name, n = base, 0
+        while name in active:
+            n += 1
+            name = f'{base}{n}'
+        return name
+
+    def cut_loop_named(self, itname, *args):
+        active = self.active_counters.setdefault(self.scope[0].oid, [])
+        active.append(itname)
+        try:
+            return self.cut_loop(*args)
+        finally:
+            active.remove(itname)
 
     st_AsyncFor = st_For
 
